@@ -175,6 +175,17 @@ class Harness(object):
                     return func(*a, **kw)
                 return wrapper
             return deco(ns['f'])
+        if kind == 'wrapped':
+            # a functools.wraps wrapper with a signature of its own, around a function clastic has inspected before
+            # (it served as an endpoint elsewhere): only the wrapper's own parameters count
+            import functools
+            from clastic import Application
+            exec('def orig(request):\n    return None\n', ns)
+            Application([('/inspected-before', ns['orig'])])
+            ns['functools'] = functools
+            sig, body = make_source('f', fid, params, (), None)
+            exec('@functools.wraps(orig)\ndef f(%s):\n    return %s\n' % (', '.join(sig), body), ns)
+            return ns['f']
         if kind in ('method', 'callable'):
             sig, body = make_source('m', fid, params, ('self',), None)
             mname = 'm' if kind == 'method' else '__call__'
@@ -322,8 +333,11 @@ class Harness(object):
         route_res = dict((n, self.value(('res', n))) for n in cfg.get('route_res', []))
         app_res = dict((n, self.value(('res', n))) for n in cfg.get('app_res', []))
         outer_res = dict((n, self.value(('res', n))) for n in cfg.get('outer_res', []))
-        route = Route(pattern, ep, rn, methods=['GET'], middlewares=[x for x, m in zip(insts, cfg['mws']) if m['level'] == 'route'],
-                      resources=route_res)
+        route_mws = [x for x, m in zip(insts, cfg['mws']) if m['level'] == 'route']
+        route = Route(pattern, ep, rn, methods=['GET'], middlewares=route_mws, resources=route_res)
+        # the lists and dicts handed over stay the caller's: what the caller does to them afterwards is not the route's
+        route_mws.append(self.ghost())
+        route_res['ghost_resource'] = 1
         self.route_obj = route
         sibling = []
         if cfg.get('sibling'):
@@ -352,6 +366,8 @@ class Harness(object):
         else:
             kw.update(slash_kw)
             app = Application(self.decoy_entries(cfg, decoys) + [route] + sibling, resources=app_res, middlewares=app_mws, **kw)
+        app_mws.append(self.ghost())
+        app_res['ghost_resource'] = 1
         self.inner_app = app
         self.prefix = prefix
         self.has_outer = has_outer
@@ -369,6 +385,21 @@ class Harness(object):
             app = outer
         self.app = app
         return app
+
+    def ghost(self):
+        """A middleware appended to a caller's list *after* the list was handed to clastic: it must never run."""
+        from clastic import Middleware
+        h = self
+
+        class Ghost(Middleware):
+            def request(self, next):
+                h.trace.append(('enter', 'ghost.request', {}))
+                return next()
+
+            def endpoint(self, next):
+                h.trace.append(('enter', 'ghost.endpoint', {}))
+                return next()
+        return Ghost()
 
     def rebind_poorer(self, cfg, error_handler=None):
         """A second serving application made from the very same unbound Route (or embedded application) object,
